@@ -156,4 +156,4 @@ impl_policy!(AsyncLFUPolicy);
 
 #[cfg(all(transparencies_stretto_verif, any(kani, test)))]
 #[path = "/verif/harness/h_policy_async.rs"]
-mod verif_harness;
+pub(crate) mod verif_harness;
